@@ -179,7 +179,7 @@ func (d *driver) next() M {
 		leaf := d.wds[b][pos-1]
 		w := M{"seq": leaf["seq"], "from": leaf["from"], "to": leaf["to"], "denom": leaf["denom"], "amt": leaf["amt"]}
 		e := M{"type": "FinalizeTokenWithdrawal", "signer": pick(r, users), "b": b, "out": out, "w": w, "v": root["v"], "tree": tree, "pos": int64(pos), "h": absx.Str(root["h"]), "mut": "none", "bad": "none"}
-		switch r.Intn(12) {
+		switch r.Intn(13) {
 		case 0:
 			w["amt"] = absx.Int(w["amt"]) + 1
 		case 1:
@@ -197,6 +197,8 @@ func (d *driver) next() M {
 			e["b"] = d.bridge(st)
 		case 6:
 			e["v"] = int64(1) - absx.Int(root["v"])
+		case 7:
+			w["from"] = "up:" + absx.Str(w["from"]) // same sender written in upper case
 		}
 		_ = id
 		return e
